@@ -298,7 +298,8 @@ ATTR_VARIANTS = [("parameter renamed", dict(pname="p_val2"), 1), ("parameter typ
                  ("NRC values", dict(nrcs=(16, 18)), 8), ("unit of the DOP", dict(unitref="u2"), 11),
                  ("display name of the unit", dict(udisp="KM"), 12), ("factor of the unit", dict(ufactor=2), 13),
                  ("physical type of the DOP", dict(phys="A_INT32"), 14), ("physical constant", dict(pc=8), 15),
-                 ("default value", dict(default=6), 16), ("name of the DOP", dict(dopname="d1x"), 10)]
+                 ("default value", dict(default=6), 16), ("default value removed", dict(default=None), 16),
+                 ("name of the DOP", dict(dopname="d1x"), 10)]
 
 
 ESD_NAMES = ["esd", "2nd_gen_shared", "index", "class", "copy", "None"]
